@@ -34,6 +34,7 @@ def shapes(a, b, s, t, f):
     return [a, s, t, f, None, True, (), [], {}, set(), frozenset(), (a,), (a, b), (a, b, s), (a, b, s, t), [a], l, [l, l], {s: l}, d, [d, d],
             {a: {b: s}}, {a, b}, frozenset({a}), [(a, [b, {s: (t,)}])], ((), [], {}), [[[]]], {s: None, "z": [True, False]},
             [a, s, a, s], (l, l), {"k": d, "j": d}, [{a}, {a}], [frozenset({a, b})], bytearray(t),
+            [a, True, b, False], [True, a], {s: False, "n": a}, [0.0, -0.0, f], [-0.0, 0.0], (f, -f),
             [BIG_LIST, BIG_LIST], {"x": BIG_LIST, "y": [BIG_LIST, a]}, [BIG_DICT, BIG_DICT], [BIG_SET, BIG_SET], (BIG_LIST, s, BIG_DICT)]
 
 
@@ -70,7 +71,7 @@ def _allowed_import(name, globals=None, locals=None, fromlist=(), level=0):
 def make_plain(proto):
     def lem(sh: int) -> bool:
         """
-        pre: 0 <= sh < 48
+        pre: 0 <= sh < 64
         post: _
         """
         if sh >= NSHAPES:
